@@ -121,6 +121,8 @@ def eval_client(f, path, closed=0):
     def oracle(kind, name, payload, site):
         if kind == "await":
             return E.Ok(E.Ok(E.Tok("response"))) if str(name).startswith("fut:rpc") else None
+        if kind == "discr" and str(name).startswith("response"):
+            return 1        # an optional part of the server's answer (`response.entry`): present
         if kind != "call":
             return None
         t, args, it = payload
